@@ -110,6 +110,17 @@ CHECKS = {
         "components": {"real": REAL + ["hint wrapper hook (constraint/verifhook, -tags verif)"], "stub": ["hint answers under fault (byzantine solver oracle)", "commitment challenge in solver-only runs (hash of the committed values)"]},
         "assumptions": ["only the dishonest-prover clause is decided: wires no hint controls are determined by the constraints and are not substituted", "the fault-free equality with the specification is the baseline of the same runs, not a claim over all programs"],
     },
+    "C12": {
+        "engine": "c12",
+        "level": "fault_enumeration",
+        "rule": "one evaluation = one Solve of an emulated-arithmetic chain under a plan of faulted hint answers (quotient / remainder / carry / inverse / square-root / padding answers: perturbed, swapped, misdirected, replayed, shifted between limbs, modular alias, +-modulus windows, sign flip, failed), judged by the math/big value of the chain modulo the emulated modulus on the strictly reduced probed result; "
+                "a case = (emulated field in {Goldilocks, secp256k1 Fp, BN254 Fp, BLS12-381 Fp}, chain in {mul, mul-add-sub, div, inverse, sqrt, 24-step lazy chain, select/iszero, canonical bits, less-or-equal, neg/mulconst, exp, equality}, native field, builder, operands incl. 0, 1, p-1, p, all-ones)",
+        "quick": {"runs": 480, "budget_s": 230, "selftest_runs": 3, "params": {"faults": 10}},
+        "thorough": {"runs": 16000, "budget_s": 2700, "selftest_runs": 4, "params": {"faults": 32}},
+        "expect_probes": ["faulty_answer_rejected", "perturb-output", "misdirected", "replayed", "compensated-shift", "add-input-window", "quotient-shift", "hint-error"],
+        "components": {"real": REAL + ["hint wrapper hook (constraint/verifhook, -tags verif)"], "stub": ["hint answers under fault (byzantine solver oracle)", "commitment challenge in solver-only runs (hash of the committed values, as under Fiat-Shamir)"]},
+        "assumptions": ["only the 'no substitution of hint outputs' clause is decided; congruence under honest hints is the baseline of the same runs", "operand representations are those a witness can carry (reduced values and the modulus itself) and those the chains produce"],
+    },
     "C13": {
         "engine": "c13",
         "level": "fault_enumeration",
